@@ -154,7 +154,7 @@ def c03Model (w : World) : C03Obs :=
   | .ok g =>
     let owners := allFields w ++ allExts 0 w.files
     let types := owners.filterMap fun (r, f) => (g.ftypes.find? (·.1 == r)).map fun (_, t) => typeRec r f t
-    let applied := (g.extendees.map (·.2)).eraseDups.map fun m => (m, (g.extendees.filter (·.2 == m)).map (·.1))
+    let applied := (g.extendees.map (·.2)).eraseDups.map fun m => (m, sortRefs ((g.extendees.filter (·.2 == m)).map (·.1)))   -- as a set: the order of Extensions() is not specified
     ⟨false, types.mergeSort (fun a b => refLe a.ref b.ref), g.mio.mergeSort pairLe,
      (g.extendees.map fun (x, m) => (x, m, true)).mergeSort pairLe, applied.mergeSort pairLe⟩
 
